@@ -259,7 +259,19 @@ Inductive node :=
 | NFile (ino : nat)
 | NLink (target : path).
 
-Record inode := mkino { idata : file; iro : bool }.
+(* permission bits (st_mode & 0o7777); the runs set umask 0o022 *)
+Definition UMASK : N := 18.              (* 0o022 *)
+Definition DIR_MODE : N := 493.          (* 0o755 = 0o777 & ~umask: create_dir, the root *)
+Definition DEFAULT_MODE : N := 438.      (* 0o666: OpenOptions::new() *)
+Definition WRITE_BITS : N := 146.        (* 0o222 *)
+Definition created_mode (m : N) : N := N.ldiff (N.land m 4095) UMASK.
+
+Record inode := mkino { idata : file; imode : N }.
+(* Permissions::readonly(): no write bit at all *)
+Definition iro (i : inode) : bool := (N.land (imode i) WRITE_BITS =? 0)%N.
+(* Permissions::set_readonly *)
+Definition chmod_ro (m : N) (ro : bool) : N :=
+  if ro then N.ldiff m WRITE_BITS else N.lor m WRITE_BITS.
 
 Record fsys := mkfs { nodes : list (path * node); inodes : list inode }.
 
@@ -330,7 +342,7 @@ Definition WALK_FUEL : nat := 48.
 Definition resolve (fs : fsys) (p : path) (follow : bool) : res path :=
   walk WALK_FUEL fs [] p follow.
 
-Definition get_inode (fs : fsys) (i : nat) : inode := nth i (inodes fs) (mkino [] false).
+Definition get_inode (fs : fsys) (i : nat) : inode := nth i (inodes fs) (mkino [] 0%N).
 
 Fixpoint set_nth {A} (l : list A) (i : nat) (x : A) : list A :=
   match l, i with
@@ -342,13 +354,18 @@ Fixpoint set_nth {A} (l : list A) (i : nat) (x : A) : list A :=
 Definition set_inode (fs : fsys) (i : nat) (x : inode) : fsys :=
   mkfs (nodes fs) (set_nth (inodes fs) i x).
 Definition set_data (fs : fsys) (i : nat) (d : file) : fsys :=
-  set_inode fs i (mkino d (iro (get_inode fs i))).
+  set_inode fs i (mkino d (imode (get_inode fs i))).
 Definition with_nodes (fs : fsys) (ns : list (path * node)) : fsys := mkfs ns (inodes fs).
 
 (* create an empty regular file at canonical path p *)
-Definition create_file (fs : fsys) (p : path) : fsys * nat :=
+Definition create_file (fs : fsys) (p : path) (mode : N) : fsys * nat :=
   let i := length (inodes fs) in
-  (mkfs (insert (nodes fs) p (NFile i)) (inodes fs ++ [mkino [] false]), i).
+  (mkfs (insert (nodes fs) p (NFile i)) (inodes fs ++ [mkino [] (created_mode mode)]), i).
+
+(* O_TMPFILE: an inode without a name *)
+Definition create_anon (fs : fsys) (mode : N) : fsys * nat :=
+  let i := length (inodes fs) in
+  (mkfs (nodes fs) (inodes fs ++ [mkino [] (created_mode mode)]), i).
 
 (* ---- open ------------------------------------------------------------ *)
 
@@ -357,39 +374,86 @@ Record handle := mkh {
   hk : hkind; h_r : bool; h_w : bool; h_app : bool; h_seq : bool; h_pos : nat
 }.
 
-Definition fs_open (fs : fsys) (p : path) (flags : N) (seq : bool) : fsys * res handle :=
+Definition O_DIRECTORY : N := 65536.
+Definition O_NOFOLLOW : N := 131072.
+Definition O_TMPFILE_BIT : N := 4194304.          (* __O_TMPFILE *)
+Definition O_TMPFILE : N := 4259840.              (* __O_TMPFILE | O_DIRECTORY *)
+
+(* does open(2) consume its mode argument for this flag word? *)
+Definition mode_consumed (flags : N) : bool :=
+  has_flag flags O_CREAT || has_flag flags O_TMPFILE_BIT.
+
+(* open(2) / openat2 of Linux >= 6.4 on the name space: O_TMPFILE (unnamed file in
+   a directory, needs write access, excludes O_CREAT and needs O_DIRECTORY),
+   O_CREAT | O_DIRECTORY is EINVAL, O_CREAT | O_EXCL does not follow a final
+   symlink, O_NOFOLLOW on a final symlink is ELOOP, O_DIRECTORY on a non-directory
+   is ENOTDIR, write access to a directory is EISDIR, O_EXCL without O_CREAT is
+   ignored.  A file the call creates gets mode & ~umask; an existing file keeps
+   its mode. *)
+Definition fs_open (fs : fsys) (p : path) (flags mode : N) (seq : bool) : fsys * res handle :=
   let acc := N.land flags O_ACCMODE in
   let rd := negb (acc =? O_WRONLY)%N in
   let wr := negb (acc =? O_RDONLY)%N in
   let app := has_flag flags O_APPEND in
   let mk k := mkh k rd wr app seq 0 in
-  if has_flag flags O_CREAT && has_flag flags O_EXCL then
+  let creat := has_flag flags O_CREAT in
+  let isdir_err := wr || creat in
+  if has_flag flags O_TMPFILE_BIT then
+    if negb (has_flag flags O_DIRECTORY) || creat || negb wr then (fs, Rerr E_INVALID_INPUT) else
+    match resolve fs p (negb (has_flag flags O_NOFOLLOW)) with
+    | Rerr e => (fs, Rerr e)
+    | Rok q =>
+      match kind_at fs q with
+      | KNone => (fs, Rerr E_NOT_FOUND)
+      | KDir => let '(fs', i) := create_anon fs mode in (fs', Rok (mk (HFile i)))
+      | KFile => (fs, Rerr E_NOT_DIR)
+      | KLink => (fs, Rerr E_NOT_DIR)   (* O_NOFOLLOW with O_DIRECTORY on a symlink: ENOTDIR *)
+      end
+    end
+  else if creat && has_flag flags O_DIRECTORY then (fs, Rerr E_INVALID_INPUT)
+  else if creat && has_flag flags O_EXCL then
     match resolve fs p false with
     | Rerr e => (fs, Rerr e)
     | Rok q =>
       match kind_at fs q with
-      | KNone => let '(fs', i) := create_file fs q in (fs', Rok (mk (HFile i)))
+      | KNone => let '(fs', i) := create_file fs q mode in (fs', Rok (mk (HFile i)))
       | _ => (fs, Rerr E_ALREADY_EXISTS)
       end
     end
   else
-    match resolve fs p true with
+    match resolve fs p (negb (has_flag flags O_NOFOLLOW)) with
     | Rerr e => (fs, Rerr e)
     | Rok q =>
       match q, lookup (nodes fs) q with
-      | [], _ => if wr || has_flag flags O_CREAT then (fs, Rerr E_IS_DIR) else (fs, Rok (mk HDir))
+      | [], _ => if isdir_err then (fs, Rerr E_IS_DIR) else (fs, Rok (mk HDir))
       | _, None =>
-        if has_flag flags O_CREAT
-        then let '(fs', i) := create_file fs q in (fs', Rok (mk (HFile i)))
+        if creat
+        then let '(fs', i) := create_file fs q mode in (fs', Rok (mk (HFile i)))
         else (fs, Rerr E_NOT_FOUND)
-      | _, Some NDir =>
-        if wr || has_flag flags O_CREAT then (fs, Rerr E_IS_DIR) else (fs, Rok (mk HDir))
+      | _, Some NDir => if isdir_err then (fs, Rerr E_IS_DIR) else (fs, Rok (mk HDir))
       | _, Some (NFile i) =>
+        if has_flag flags O_DIRECTORY then (fs, Rerr E_NOT_DIR) else
         let fs' := if has_flag flags O_TRUNC && wr then set_data fs i [] else fs in
         (fs', Rok (mk (HFile i)))
-      | _, Some (NLink _) => (fs, Rerr E_LOOP)
+      | _, Some (NLink _) =>
+        if has_flag flags O_DIRECTORY then (fs, Rerr E_NOT_DIR) else (fs, Rerr E_LOOP)
       end
     end.
+
+(* the permission bits fstat reports through a handle *)
+Definition h_perm (fs : fsys) (h : handle) : N :=
+  match hk h with
+  | HFile i => imode (get_inode fs i)
+  | HDir => DIR_MODE
+  end.
+
+(* what compio hands to openat: the flag word and the mode, ALWAYS both
+   (open_options/unix.rs open_impl: OpenFile::new(dir, p, flags, self.mode)) *)
+Definition open_request (o : oopts) (mode : N) : res (N * N) :=
+  match open_flags o with
+  | Rok fl => Rok (fl, mode)
+  | Rerr e => Rerr e
+  end.
 
 (* ---- directory utilities (compio-fs/src/utils) ------------------------ *)
 
@@ -556,7 +620,8 @@ Definition fs_chmod (fs : fsys) (p : path) (ro : bool) : option (fsys * res unit
     | [], _ => None
     | _, None => Some (fs, Rerr E_NOT_FOUND)
     | _, Some NDir => None
-    | _, Some (NFile i) => Some (set_inode fs i (mkino (idata (get_inode fs i)) ro), Rok tt)
+    | _, Some (NFile i) =>
+      Some (set_inode fs i (mkino (idata (get_inode fs i)) (chmod_ro (imode (get_inode fs i)) ro)), Rok tt)
     | _, Some (NLink _) => Some (fs, Rerr E_LOOP)
     end
   end.
